@@ -349,6 +349,12 @@ type errParamSingleFailed struct {
 	Key    key
 	Reason error
 	CtorID dot.CtorID
+
+	// The constructor or decorator that failed. The same function may
+	// have been provided to several scopes, or used as a constructor and
+	// as a decorator: CtorID alone does not tell which of those this is
+	// about.
+	node interface{}
 }
 
 var _ digError = errParamSingleFailed{}
@@ -373,7 +379,7 @@ func (e errParamSingleFailed) updateGraph(g *dot.Graph) {
 			Type:  e.Key.t,
 		},
 	}
-	g.FailNodes([]*dot.Result{failed}, e.CtorID)
+	g.FailNodesOf([]*dot.Result{failed}, e.CtorID, e.node)
 }
 
 // errParamGroupFailed is returned when a value group cannot be built because
@@ -382,6 +388,10 @@ type errParamGroupFailed struct {
 	Key    key
 	Reason error
 	CtorID dot.CtorID
+
+	// The constructor or decorator that failed
+	// (see errParamSingleFailed).
+	node interface{}
 }
 
 var _ digError = errParamGroupFailed{}
@@ -399,7 +409,7 @@ func (e errParamGroupFailed) Format(w fmt.State, c rune) {
 }
 
 func (e errParamGroupFailed) updateGraph(g *dot.Graph) {
-	g.FailGroupNodes(e.Key.group, e.Key.t, e.CtorID)
+	g.FailGroupNodesOf(e.Key.group, e.Key.t, e.CtorID, e.node)
 }
 
 // missingType holds information about a type that was missing in the
